@@ -14,6 +14,7 @@ import (
 	"fmt"
 	"go/ast"
 	"go/token"
+	"regexp"
 	"strings"
 )
 
@@ -187,6 +188,104 @@ func c12MapStores(fd *ast.FuncDecl, m string) (res [][2]string) {
 	return res
 }
 
+// c12ScanLoop translates the header scan loop of BuildIndex (list[loop]) into
+// Base.C12Lib.scan_op's, in source order, and records whether the file is
+// rewound to its start between MultiWrite and the loop and read through an
+// unbuffered tar.NewReader(f) on the file whose position the loop asks for.
+func c12ScanLoop(g *gen, rel string, list []ast.Stmt, loop int) {
+	fs := list[loop].(*ast.ForStmt)
+	where := rel + ":BuildIndex scan loop"
+	if fs.Init != nil || fs.Cond != nil || fs.Post != nil {
+		fail("%s: the loop has a header (%s); expected `for { … }`", where, strings.Join(strings.Fields(exprText(fs)), " ")[:40])
+		return
+	}
+	// the reader: <tr> := tar.NewReader(<f>) before the loop
+	trVar, fVar := "", ""
+	rewinds := false
+	afterWrite := false
+	for _, s := range list[:loop] {
+		txt := strings.Join(strings.Fields(exprText(s)), " ")
+		if strings.Contains(txt, "MultiWrite(") {
+			afterWrite, rewinds = true, false
+		}
+		if as, ok := s.(*ast.AssignStmt); ok && len(as.Lhs) == 1 && len(as.Rhs) == 1 {
+			if ce, ok := as.Rhs[0].(*ast.CallExpr); ok && exprText(ce.Fun) == "tar.NewReader" && len(ce.Args) == 1 {
+				if id, ok := as.Lhs[0].(*ast.Ident); ok {
+					if a, ok := ce.Args[0].(*ast.Ident); ok {
+						trVar, fVar = id.Name, a.Name
+					} else {
+						fail("%s: tar.NewReader(%s): the reader is not put directly on the file", where, exprText(ce.Args[0]))
+					}
+				}
+			}
+		}
+		if afterWrite && strings.Contains(txt, ".Seek(0, io.SeekStart)") {
+			rewinds = true
+		}
+	}
+	if trVar == "" {
+		fail("%s: no `tr := tar.NewReader(f)` before the loop", where)
+		return
+	}
+	var ops []string
+	hdrVar := ""
+	mentions := func(txt string, names ...string) bool {
+		for _, n := range names {
+			if n != "" && regexp.MustCompile(`\b`+regexp.QuoteMeta(n)+`\b`).MatchString(txt) {
+				return true
+			}
+		}
+		return false
+	}
+	posVar, sizeVar := "", ""
+	for _, s := range fs.Body.List {
+		txt := strings.Join(strings.Fields(exprText(s)), " ")
+		switch x := s.(type) {
+		case *ast.AssignStmt:
+			if len(x.Rhs) == 1 {
+				r := exprText(x.Rhs[0])
+				id, isId := x.Lhs[0].(*ast.Ident)
+				switch {
+				case r == trVar+".Next()" && isId && len(x.Lhs) == 2:
+					hdrVar = id.Name
+					ops = append(ops, "OpNext")
+					continue
+				case r == fVar+".Seek(0, io.SeekCurrent)" && isId && len(x.Lhs) == 2:
+					posVar = id.Name
+					ops = append(ops, "(OpPos "+coqStr(id.Name)+")")
+					continue
+				case hdrVar != "" && r == hdrVar+".Size" && isId && len(x.Lhs) == 1:
+					sizeVar = id.Name
+					ops = append(ops, "(OpSize "+coqStr(id.Name)+")")
+					continue
+				}
+			}
+		case *ast.IfStmt:
+			if x.Init == nil && x.Else == nil {
+				c := strings.Join(strings.Fields(exprText(x.Cond)), " ")
+				if (c == "errors.Is(err, io.EOF)" || c == "err == io.EOF") && len(x.Body.List) == 1 {
+					if b, ok := x.Body.List[0].(*ast.BranchStmt); ok && b.Tok == token.BREAK && b.Label == nil {
+						ops = append(ops, "OpBreakEOF")
+						continue
+					}
+				}
+				if c == "err != nil" && len(x.Body.List) >= 1 {
+					if _, ok := x.Body.List[len(x.Body.List)-1].(*ast.ReturnStmt); ok {
+						ops = append(ops, "OpReturnErr")
+						continue
+					}
+				}
+			}
+		}
+		if mentions(txt, trVar, fVar, hdrVar, posVar, sizeVar, "err", "break", "continue", "return", "goto") {
+			fail("%s: statement %q is outside the translated fragment", where, txt)
+		}
+		// anything else (logging, counters) does not touch the reader, the file or the two variables
+	}
+	g.def("scan_body", "list scan_op", "["+strings.Join(ops, "; ")+"]", "body of the header scan loop of BuildIndex at "+g.pos(fs)+" (reader "+trVar+" on file "+fVar+")")
+	g.def("scan_rewinds", "bool", coqBool(rewinds), "the file is rewound with "+fVar+".Seek(0, io.SeekStart) between MultiWrite and the scan loop")
+}
+
 func genC12() {
 	g := newGen("C12Oci", "From Apko Require Import Base.Prelude Base.C12Lib.\nOpen Scope string_scope. Open Scope list_scope.")
 
@@ -251,6 +350,7 @@ func genC12() {
 			g.def("pad_size_var", "string", coqStr(sizeVar), "variable holding the last member's size (hdr.Size)")
 			g.def("pad_out_var", "string", coqStr(outVar), "offset handed to f.Seek(_, io.SeekStart) at "+g.pos(last))
 			g.def("pad_program", "stmt", c12Seq(prog), "statements of BuildIndex from "+g.pos(first)+" up to that Seek")
+			c12ScanLoop(g, relIdx, list, loop)
 		}
 		if e := findValueIn(fd, "blockSize"); e != nil {
 			if v, ok := intLit(e); ok {
